@@ -51,6 +51,10 @@ def configs(tier, seed):
         out.append({"name": f"oscillation-noirf-{n}", "kind": "osc", "n": n, "nt": nt})
     for shifted in (False, True):
         out.append({"name": f"oscillation-irf-before-pulse-{'shifted' if shifted else 'noshift'}", "kind": "osc_irf", "shifted": shifted})
+    for neg in (False, True):
+        for ngauss in (1, 2):
+            out.append({"name": f"oscillation-irf-full-{'neg' if neg else 'pos'}rate-{ngauss}gauss", "kind": "osc_irf_full", "neg": neg,
+                        "ngauss": ngauss, "shifted": ngauss == 1})
     for order in (1, 2, 3):
         for own in (False, True):
             out.append({"name": f"artifact-order{order}-{'own' if own else 'irf'}width", "kind": "artifact", "order": order,
@@ -94,9 +98,15 @@ def install(p):
             from scipy.special import erf as _erf
 
             return _erf(x)
-        raise core.Unsupported("complex error function of a symbolic argument")
+        out_ = SymArray(x.shape)
+        for i_ in np.ndindex(*x.shape):
+            v_ = x[i_]
+            if not hasattr(v_, "erf"):
+                raise core.Unsupported("error function of a non-symbolic object")
+            np.ndarray.__setitem__(out_, i_, v_.erf())
+        return out_
 
-    p.set(do, "erf", erf_shim, "scipy.special.erf -> only empty / concrete arguments (complex erf is outside the encoding)")
+    p.set(do, "erf", erf_shim, "scipy.special.erf -> complex error function as a pair of uninterpreted functions of (re, im)")
     p.set(do, "calculate_damped_oscillation_matrix_no_irf", do.calculate_damped_oscillation_matrix_no_irf.py_func, "numba kernel -> its py_func")
     p.set(ca, "_calculate_coherent_artifact_matrix_on_index", ca._calculate_coherent_artifact_matrix_on_index.py_func, "numba kernel -> its py_func")
     p.set(ca, "_calculate_coherent_artifact_matrix", ca._calculate_coherent_artifact_matrix.py_func, "numba kernel -> its py_func")
@@ -124,7 +134,7 @@ def run_config(cfg, rec):
     rec.assume_note("widths > 0; oscillation frequencies below the Nyquist fold-over of the time axis; exp/log/sin/cos uninterpreted "
                     "(exp(0)=1, log(1)=0, exp(-ln2 as float)=1/2 taken as exact)")
     core.Ctx.generic_models = False
-    {"osc": _run_osc, "artifact": _run_artifact, "shape": _run_shape, "axis": _run_axis, "osc_irf": _run_osc_irf}[cfg["kind"]](cfg, rec)
+    {"osc": _run_osc, "artifact": _run_artifact, "shape": _run_shape, "axis": _run_axis, "osc_irf": _run_osc_irf, "osc_irf_full": _run_osc_irf_full}[cfg["kind"]](cfg, rec)
 
 
 def build_osc(n, val, order=None):
@@ -257,6 +267,104 @@ def _run_osc_irf(cfg, rec):
         rec.check_all(ctx, items, wit)
         rec.want_sample() and rec.sample({"labels": list(labels), "value_before_pulse": str(zreal(matrix.flat[0]))[:80]})
     rec.validate("osc_irf", {}, {"ok": True})
+
+
+def build_osc_irf_full(cfg, val):
+    from glotaran.builtin.megacomplexes.decay.irf import IrfMultiGaussian
+
+    ng = cfg["ngauss"]
+    irf = IrfMultiGaussian(label="irf", center=[_param(f"mu{g}", val(f"mu{g}")) for g in range(ng)],
+                           width=[_param(f"sig{g}", val(f"sig{g}")) for g in range(ng)],
+                           scale=[_param(f"sc{g}", val(f"sc{g}")) for g in range(ng)] if ng > 1 else None,
+                           shift=[_param("sh0", val("sh0")), _param("sh1", val("sh1"))] if cfg["shifted"] else None)
+    return build_osc(1, val), types.SimpleNamespace(label="d1", irf=irf)
+
+
+def _run_osc_irf_full(cfg, rec):
+    """Damped oscillation convolved with a (multi-)Gaussian IRF, all regions: columns = Re / Im of
+        sum_g s_g exp((-tau_g + k sigma_g^2 / 2) k) (1 + erf((tau_g - k sigma_g^2) / (+-sigma_g sqrt2)))  / sum_g s_g,
+    k = gamma + i omega, tau_g = t - (mu_g - shift_i), each Gaussian contributing only inside its 5 sigma window (causal for
+    gamma >= 0, anti-causal with the sign of the erf argument flipped for gamma < 0), 0 outside."""
+    ng = cfg["ngauss"]
+    W = zreal(0.03) * 2 * zreal(float(np.pi))
+    S2 = zreal(float(np.sqrt(2)))
+
+    def fn(ctx):
+        with Patcher() as p, warnings.catch_warnings():
+            warnings.simplefilter("ignore")
+            install(p)
+            if not rec.shims:
+                rec.shims += p.record
+            vals = {}
+
+            def val(nm):
+                vals[nm] = sym(nm)
+                return vals[nm]
+
+            mc, dm = build_osc_irf_full(cfg, val)
+            t = _axis(ctx, "t", 2)
+            for g in range(ng):
+                ctx.assume(vals[f"sig{g}"].e > 0)
+                if ng > 1:
+                    ctx.assume(vals[f"sc{g}"].e > 0)
+            ctx.assume((vals["g0"].e < 0) if cfg["neg"] else (vals["g0"].e >= 0))
+            ctx.assume(vals["f0"].e >= 0)
+            ctx.assume(vals["f0"].e * W * 2 * zreal(0.03) * (t[1].e - t[0].e) < 1)
+            gaxis = np.array([1.0, 2.0]) if cfg["shifted"] else np.array([1.0])
+            labels, matrix = mc.calculate_matrix(dm, gaxis, t)
+        return labels, matrix, vals, t
+
+    def cmul(a, b):
+        return (a[0] * b[0] - a[1] * b[1], a[0] * b[1] + a[1] * b[0])
+
+    for ctx, (kind, out) in core.explore(fn, rec.stats, max_paths=600):
+        rec.witness_path(ctx)
+        wit = lambda mm: {"env": model_env(mm)}  # noqa: E731
+        if kind == "exc":
+            rec.unexpected(ctx, f"{type(out).__name__}: {out}", "basis:osc-irf-full:exception", wit)
+            continue
+        labels, matrix, vals, t = out
+        matrix = np.asarray(matrix, dtype=object)
+        gam, om = vals["g0"].e, vals["f0"].e * W
+        k = (gam, om)
+        fr = z3.Function("cerf_re", z3.RealSort(), z3.RealSort(), z3.RealSort())
+        fi = z3.Function("cerf_im", z3.RealSort(), z3.RealSort(), z3.RealSort())
+        items = [("labels: one cosine and one sine column", z3.BoolVal(list(labels) == ["o0_cos", "o0_sin"]), "basis:osc-irf-full:labels")]
+        nidx = 2 if cfg["shifted"] else 1
+        for gi in range(nidx):
+            for a in range(2):
+                tot = (z3.RealVal(0), z3.RealVal(0))
+                for g in range(ng):
+                    sig = vals[f"sig{g}"].e
+                    tau = t[a].e - (vals[f"mu{g}"].e - (vals[f"sh{gi}"].e if cfg["shifted"] else 0))
+                    inside_w = ctx.implied((tau < 5 * sig) if cfg["neg"] else (tau > -5 * sig))
+                    if inside_w is None:
+                        inside_w = "undecided"
+                    if inside_w is False:
+                        continue
+                    dk = (k[0] * sig * sig, k[1] * sig * sig)
+                    e_arg = cmul((-tau + dk[0] / 2, dk[1] / 2), k)
+                    mag = ctx.uf("exp", e_arg[0])
+                    aa = (mag * ctx.uf("cos", e_arg[1]), mag * ctx.uf("sin", e_arg[1]))
+                    den = (-S2 * sig) if cfg["neg"] else (S2 * sig)
+                    zr, zi = z3.simplify((tau - dk[0]) / den), z3.simplify((-dk[1]) / den)
+                    bb = (1 + fr(zr, zi), fi(zr, zi))
+                    term = cmul(aa, bb)
+                    sc = vals[f"sc{g}"].e if ng > 1 else z3.RealVal(1)
+                    if inside_w == "undecided":
+                        cond = (tau < 5 * sig) if cfg["neg"] else (tau > -5 * sig)
+                        term = (z3.If(cond, term[0], 0), z3.If(cond, term[1], 0))
+                    tot = (tot[0] + sc * term[0], tot[1] + sc * term[1])
+                norm = z3.Sum([vals[f"sc{g}"].e for g in range(ng)]) if ng > 1 else z3.RealVal(1)
+                got_c = matrix[gi, a, 0] if matrix.ndim == 3 else matrix[a, 0]
+                got_s = matrix[gi, a, 1] if matrix.ndim == 3 else matrix[a, 1]
+                items.append(("cosine column = Re of the IRF-convolved oscillation closed form (0 outside the 5 sigma window), at centre - shift_i",
+                              core.cross_eq(zreal(got_c), tot[0] / norm), "basis:osc-irf-full:cos"))
+                items.append(("sine column = Im of the IRF-convolved oscillation closed form",
+                              core.cross_eq(zreal(got_s), tot[1] / norm), "basis:osc-irf-full:sin"))
+        rec.check_all(ctx, items, wit)
+        rec.want_sample() and rec.sample({"pc": [str(c)[:80] for c in ctx.pc][:4], "cos0": str(zreal(matrix.flat[0]))[:160]})
+    rec.validate("osc_irf_full", {}, {"ok": True})
 
 
 def build_artifact(cfg, val):
@@ -476,6 +584,33 @@ def replay(data):
                 if not np.allclose(row, 0, atol=1e-12):
                     return True, (f"oscillation with Gaussian IRF (centre {v['mu']}, width {v['sig']}, shift {v['sh0'] if cfg['shifted'] else None}): at "
                                   f"t = {t[0]} (5.5 sigma before the effective IRF position {c_eff}) the columns are {row.tolist()}, expected 0")
+            elif cfg["kind"] == "osc_irf_full":
+                from scipy.special import erf as cerf
+
+                ng_ = cfg["ngauss"]
+                v = {"f0": float(rng.uniform(1, 20)), "g0": float(rng.uniform(0.1, 3)) * (-1 if cfg["neg"] else 1), "sh0": float(rng.uniform(-0.3, 0.3)),
+                     "sh1": float(rng.uniform(-0.3, 0.3))}
+                for g in range(ng_):
+                    v.update({f"mu{g}": float(rng.uniform(-0.2, 0.4)), f"sig{g}": float(rng.uniform(0.05, 0.3)), f"sc{g}": float(rng.uniform(0.5, 2))})
+                mc, dm = build_osc_irf_full(cfg, lambda nm: v[nm])
+                t = np.array([float(rng.uniform(-1.5, 0.2)), float(rng.uniform(0.3, 1.5))])
+                gaxis = np.array([1.0, 2.0]) if cfg["shifted"] else np.array([1.0])
+                labels, m = mc.calculate_matrix(dm, gaxis, t)
+                kk = v["g0"] + 1j * v["f0"] * 0.03 * 2 * np.pi
+                for gi in range(len(gaxis)):
+                    for a in range(2):
+                        tot = 0j
+                        for g in range(ng_):
+                            sig = v[f"sig{g}"]
+                            tau = t[a] - (v[f"mu{g}"] - (v[f"sh{gi}"] if cfg["shifted"] else 0.0))
+                            if (tau < 5 * sig) if cfg["neg"] else (tau > -5 * sig):
+                                term = np.exp((-tau + 0.5 * kk * sig * sig) * kk) * (1 + cerf((tau - kk * sig * sig) / ((-1 if cfg["neg"] else 1) * np.sqrt(2) * sig)))
+                                tot += (v[f"sc{g}"] if ng_ > 1 else 1.0) * term
+                        tot /= sum(v[f"sc{g}"] for g in range(ng_)) if ng_ > 1 else 1.0
+                        row = m[gi, a] if m.ndim == 3 else m[a]
+                        if not np.allclose([row[0], row[1]], [tot.real, tot.imag], rtol=1e-7, atol=1e-10):
+                            return True, (f"{cfg['name']} parameters {v}: columns at t={t[a]}, index {gi} are {row.tolist()}, closed form "
+                                          f"{[tot.real, tot.imag]}")
             elif cfg["kind"] == "artifact":
                 ng = cfg.get("ng", 1)
                 v = {"mu": float(rng.uniform(-0.3, 0.3)), "sig": float(rng.uniform(0.1, 0.5)), "w": float(rng.uniform(0.1, 0.5))}
